@@ -307,5 +307,7 @@ def inline_in_place(prog, f, skip=(), depth=2):
     g = inlined(prog, f, depth=depth, skip=skip)
     if g is not f:
         f.node = g.node
-        return list(g.inlined_helpers)
-    return []
+        helpers = list(getattr(g, 'inlined_helpers', []))
+        f.inlined_helpers = helpers
+        return helpers
+    return list(getattr(f, 'inlined_helpers', []))
